@@ -4,7 +4,7 @@ package scalar
 
 import "github.com/oasisprotocol/curve25519-voi/internal/verif"
 
-//verif:ob prop=C08 name=ct_scalar_arithmetic mode=bv tags=purego,force32bit ct=1
+//verif:ob prop=C08,C18 name=ct_scalar_arithmetic mode=bv tags=purego,force32bit ct=1 sharedro=1
 func vh_C08_scalar() {
 	verif.Secret("a")
 	verif.Secret("b")
